@@ -231,6 +231,41 @@ theorem c07_trace_produce_after_add (a b : List Ev) (i p : Nat) (s : TSt)
       have hreg' : s1.env.ongoing = true ∧ p ∈ s1.env.parts := by simpa using hreg
       exact ⟨by simpa using hin, hreg'.1, hreg'.2⟩
 
+/-- **… never before the acknowledgement reached the client**: wherever the client hands a
+    Produce for partition `p` to a connection in an accepted history, it has — inside the running
+    transaction — already received the coordinator's ok reply of AddPartitionsToTxn for `p` -/
+theorem c07_trace_produce_after_ack (a b : List Ev) (i p : Nat) (s : TSt)
+    (h : trun {} (a ++ Ev.produceSend i p :: b) = .ok s) :
+    ∃ s1, trun {} a = .ok s1 ∧ (s1.isLive i = true → s1.inTx = true ∧ p ∈ s1.known) := by
+  obtain ⟨s1, s2, h1, h2, _⟩ := trun_split a {} s _ b h
+  refine ⟨s1, h1, ?_⟩
+  intro hl
+  simp only [tstep, hl, Bool.not_true, Bool.false_eq_true, if_false] at h2
+  split at h2
+  · cases h2
+  · next hin =>
+    split at h2
+    · cases h2
+    · next hk => exact ⟨by simpa using hin, by simpa using hk⟩
+
+/-- … and what the client counts as acknowledged really was registered by the coordinator, in
+    the running transaction, when the acknowledgement arrived -/
+theorem c07_trace_ack_is_registered (a b : List Ev) (i p : Nat) (s : TSt)
+    (h : trun {} (a ++ Ev.regAck i p :: b) = .ok s) :
+    ∃ s1, trun {} a = .ok s1 ∧
+      (s1.isLive i = true → s1.inTx = true ∧ s1.env.ongoing = true ∧ p ∈ s1.env.parts) := by
+  obtain ⟨s1, s2, h1, h2, _⟩ := trun_split a {} s _ b h
+  refine ⟨s1, h1, ?_⟩
+  intro hl
+  simp only [tstep, hl, Bool.not_true, Bool.false_eq_true, if_false] at h2
+  split at h2
+  · cases h2
+  · next hreg =>
+    have hreg' : s1.env.ongoing = true ∧ p ∈ s1.env.parts := by simpa using hreg
+    split at h2
+    · cases h2
+    · next hin => exact ⟨by simpa using hin, hreg'.1, hreg'.2⟩
+
 /-- **records are written only into the transaction they belong to**: every append in an accepted
     history happens while the coordinator has that partition registered in an ongoing transaction,
     for a record the application handed to `send()` in its running transaction, not yet written,
@@ -289,7 +324,8 @@ theorem c07_trace_end_after_acks (a b : List Ev) (i : Nat) (c : Bool) (s : TSt)
     transaction fenced by a new incarnation; the history is accepted -/
 example :
     ∃ s, trun {} [.fence, .init 0, .begin 0, .accept 0 0 0, .accept 0 1 1, .regOk 0 0, .regOk 0 1,
-                  .produceReq 0 1, .append 0 1 1, .produceReq 0 0, .append 0 0 0, .acked 0 1, .acked 0 0,
+                  .regAck 0 0, .regAck 0 1, .produceSend 0 1,
+                  .produceReq 0 1, .append 0 1 1, .produceSend 0 0, .produceReq 0 0, .append 0 0 0, .acked 0 1, .acked 0 0,
                   .commitCall 0, .endReq 0 true, .ended 0 true, .commitOk 0,
                   .begin 0, .accept 0 2 0, .regOk 0 0, .produceReq 0 0, .append 0 0 2,
                   .fence, .init 1] = .ok s ∧
